@@ -84,7 +84,11 @@ def check(report, tier, seed):
         res[c["kind"] + ":" + a[0].split(" ")[0]] += 1
         if cid in expect:
             want = ",".join("%x=%02x" % kv for kv in sorted(expect[cid].items())) or "-"
-            if a != ["ok " + want]:
+            if c["text"] == "":
+                want_line = "err EmptyFile"
+            else:
+                want_line = "ok " + want
+            if a != [want_line]:
                 report.violation("yo-wrong-image", "loaded image differs from the listing: got %s expected %s" % (a[0][:100], want[:100]), rep)
                 continue
         if a != b:
